@@ -67,6 +67,8 @@ type spec struct {
 	Name    string       // Lean name (default: the Go name, Recv_Func for methods)
 	Uses    []useSpec    // functions of other generated modules it calls
 	Opaque  []string     // "GoType=LeanName": types whose values are only passed on; each is a Lean type parameter
+	Methods []string     // "LeanName.Method=[mut ]func(..) R": abstract methods of opaque types (mut: returns (R, new value))
+	FloatAbs string      // float32 is this Lean type parameter with a decidable `<` (only < and > are translated)
 }
 
 // a fragment: the consecutive statements of one block from the one whose text starts with First to
@@ -119,6 +121,19 @@ var specs = []spec{
 		Prims: []string{"fmtAny", "getPropertyFromBytes=func(dec *msgpack.Decoder, data []byte, property string) (any, error)"},
 		Consts: []constSpec{{File: "shard/index/utils.go", Name: "opInsert", As: "opInsert"}, {File: "shard/index/utils.go", Name: "opUpdate", As: "opUpdate"},
 			{File: "shard/index/utils.go", Name: "opDelete", As: "opDelete"}, {File: "shard/index/utils.go", Name: "opSkip", As: "opSkip"}}},
+	distSetSpec("Len"), distSetSpec("AddWithLimit"), distSetSpec("Add"), distSetSpec("AddAlreadyUnique"), distSetSpec("Sort"),
+}
+
+// vamana.DistSet: the point (an interface with Id()) and the visited set (an interface with the mutating
+// CheckAndVisit) are opaque, float32 distances are an abstract type with `<`, cap(ds.items) is a ghost field
+func distSetSpec(fn string) spec {
+	return spec{File: "shard/index/vamana/distset.go", Func: fn, Recv: "DistSet", Module: "DistSet", Ext: true, FloatAbs: "D",
+		Opaque:  []string{"vectorstore.VectorStorePoint=VPoint", "VectorStorePoint=VPoint", "visitedSet=VSet"},
+		Methods: []string{"VPoint.Id=func() uint64", "VSet.CheckAndVisit=mut func(uint64) bool"},
+		Prims:   []string{"growCap"},
+		Structs: []structSpec{{File: "shard/vectorstore/vectorstore.go", Name: "PointIdDistFn"},
+			{File: "shard/index/vamana/distset.go", Name: "DistSetElem"},
+			{File: "shard/index/vamana/distset.go", Name: "DistSet", Caps: []string{"items"}}}}
 }
 
 // the paging at the end of Shard.SearchPoints
